@@ -126,7 +126,7 @@ def run(prop, tier, replay=None):
     else:
         dn = distinct.get("modeA", 0) + int(sum(s.get("nontrivial_distinct", 0) for s in summaries if s.get("mode") == "stress"))
         need = [("wraps_over_lagging_reader", 1), ("wraps_all_caught_up", 1), ("partial_unmaps", 1),
-                ("lapcross_reads", 1), ("writer_sleeps", 1), ("late_joins", 1)]
+                ("lapcross_reads", 1), ("writer_sleeps", 1)]
     for k, mn in need:
         if tot.get(k, 0) < mn:
             chk.fail("required event class never observed: %s" % k)
